@@ -22,6 +22,11 @@ CFG = {'lean_modules': ['ObiVerif.Props.C14'],
          'taxid is a merged id (rerun with the current taxid, answers must be equal: ~6600 per quick run, ~1100 through alias chains); merged_taxid maps with several keys for one taxon carry different '
          'positive counts; one dump case in three is in the exact NCBI layout and flagged L: the model checks that nodes.dmp / merged.dmp are byte for byte renderNodes / renderMerged of the '
          'declared tree (so that loadDump_rendered applies to the very files the real loader reads); taxd cases up to 300 nodes are loaded by the model from its own rendering; '
+         'third pass: 40 query kinds (+ itx isl isp ifind: Taxonomy.Iterator() drained; a TaxonSlice source of 0..10 taxa with repetitions and merged ids through IFilterOnSubcladeOf / IFilterOnTaxRank / '
+         'IFilterBelongingSubclades / the obifind ITaxonRestrictions pipeline, TaxonSlice() in order and TaxonSet() keys; an iterator and its Split() under a schedule of Next calls of the two handles, what each receives, '
+         'what is left, Finished, the current of each; obifind ITaxonRestrictions on Taxonomy.Iterator()); on every tree of n <= 5 (6) nodes: every node as the clade of the subtree enumeration from a descending source with a '
+         'repetition, every (rank, clade) pair through obifind, every schedule of two consumers up to n+2 calls (n <= 3); merged_taxid maps now carry unrelated counts under the keys of one taxon (a zero next to a positive '
+         'one in ~10% of the maps), every wl map of two or more keys is run 7 times (wl.order), wlo demands ONE answer over 300 runs = the tree-implied one (also for all-zero maps: the root); '
          'non-trivial = distinct well-formed case line',
  'technique': 'Lean 4 theorems on a functional model of the obitax queries for every well-formed taxonomy (any size, any taxids, any ranks, any alias table) + '
               'differential correspondence of the model with the real obitax / obigrep / obiannotate code on synthetic taxonomies + naive ancestor-set oracle',
@@ -45,26 +50,31 @@ CFG = {'lean_modules': ['ObiVerif.Props.C14'],
                'so loadDump_declared applies to rendered dumps unconditionally); taxon_idempotent, isValidTaxon_alias / _unknown, isSubCladeOfPred_spec / _eq_restrictTo, hasRequiredRankPred_eq_requireRanks, '
                'seq_predicates_alias, seq_predicates_clade_alias, seq_annotations_alias, seq_annotations_spec, weightedLca_alias (every sequence predicate / method / worker of sequence_predicate.go, sequence_methods.go, '
                'sequence_workers.go and the obigrep filters answer for a sequence carrying a merged taxid - or a clade given by a merged taxid - exactly what they answer for the current taxid; IsAValidTaxon(true) rewrites '
-               'the merged taxid into the current one and is then a fixed point); weightedLca_counts_partial / weightedLca_order_free_partial / taxonomicDistribution_last_wins (zero counts are ignored - all zero: the root -, '
-               'merged taxids and several keys for one taxon are harmless and the answer is independent of the Go map order as soon as the keys of one taxon agree on count > 0; the distribution keeps the count of the key met last) '
-               'with weightedLca_order_counterexample for the excluded case. The model is '
+               'the merged taxid into the current one and is then a fixed point); Third pass: weightedLca_counts / weightedLca_order_free / taxonomicDistribution_sums / taxCount_pos (FULL, no side condition on the map: for every merged_taxid map of known taxids - zero counts, merged taxids, '
+               'several keys for one taxon with any counts - Taxonomy.LCA(sequence, 1.0) is the deepest common ancestor of the taxa whose SUMMED count is positive, the root for a non-empty all-zero map, nil for the empty map, and '
+               'the same for every permutation of the key list, i.e. every Go map iteration order; TaxonomicDistribution holds one entry per taxon with the sum of the counts of its keys), with taxDistAssign_last_wins / '
+               'weightedLca_order_counterexample kept as theorems about the UNREPAIRED assignment semantics (defs taxDistAssign / weightedLcaAssign: the code before /repo 5d9c1cf), on which the answer did depend on the order; '
+               'iterator_drains_source / taxonSet_of_iterator (the ITaxonSet protocol Next / Get / Finished as a state machine: TaxonSlice() receives exactly what the producer sends, in order, each once, the loop ends with fuel len+1, '
+               'the handle is then finished for good; TaxonSet() holds one entry per taxid received), taxonomy_iterator_all_nodes / subtree_enumeration / rank_enumeration / findRestrict_spec / findRestrict_enumeration '
+               '(Taxonomy.Iterator() lists every node exactly once; Taxonomy.IFilterOnSubcladeOf(c) lists exactly the descendant set of c, no duplicate; IFilterOnTaxRank the nodes of the rank; obifind ITaxonRestrictions = rank filter '
+               'then IFilterBelongingSubclades exactly the nodes of the rank in the clades; for two Go map orders the listings are permutations of one another), split_every_taxon_once (ITaxonSet.Split(): for EVERY interleaving of the '
+               'Next calls of two consumers each taxon of the source goes to exactly one of them, each sees its share in source order, and once more calls were made than there are taxa the shares are a partition of the source). The model is '
                'tied to pkg/obitax, obigrep/options.go and the obiannotate workers by running both on the same synthetic taxonomies (API-built and loaded from dump '
                'directories), all rooted labelled trees up to 6 nodes exhaustively, random trees to 7000 nodes, with an independent ancestor-set oracle on the real code.',
  'level_note': 'Trusted: Lean kernel; the transcription Model/Tax.lean (pointer comparisons of TaxNode read as taxid comparisons; the float test rmax >= 1.0 read as '
                'the integer test total > 0 and weighMax = total); Model/TaxLoad.lean (functional model of encoding/csv as configured by the loader, of bufio.ReadLine, strings.Split/TrimSpace, strconv.Atoi '
                'on ASCII bytes, of regexp TX:(\\d+) as leftmost scan). Model/TaxSeq.lean (sequence level closures / methods / workers as functions of the taxid attribute), Model/TaxRender.lean (the NCBI layout; the L-flagged dump cases check the '
-               'file bytes against it). Tied by correspondence only (no theorem): the byte level of the loader on layouts OTHER than the NCBI one (no blanks / extra blanks, \\r\\n, comments, empty lines, no final line '
+               'file bytes against it), Model/TaxIter.lean (ITaxonSet as shared state rest-to-send + *p_finished, Next, the draining loops, Split, the obifind pipeline). Tied by correspondence only (no theorem): the byte level of the loader on layouts OTHER than the NCBI one (no blanks / extra blanks, \\r\\n, comments, empty lines, no final line '
                'break, + signs and leading zeros: 100+ generated layouts per run with the declared tree as oracle) and on damaged files (ErrBareQuote / ErrFieldCount ending the loading silently, the 4096-byte limit: model = '
-               'reference); lca_name value, AddLCAWorker = Taxonomy.LCA. PARTIAL: weightedLca_counts_partial needs hcons (the keys of one taxon agree on count > 0): TaxonomicDistribution assigns instead of adding, so for a map '
-               'holding a merged taxid with count 0 and its current taxid with a positive count (or the converse) the answer of the real code changes with the map iteration order (shown on the real code by the wlo queries, '
-               'stat finding:wl-dup-order, Fail wlo.order when VERIF_C14_FINDINGS is set; proposed one-line fix notes/patches/C14-taxdist-sum.proposed.diff, not applied; proposed known finding). Decided out of scope (observations, '
+               'reference); lca_name value, AddLCAWorker = Taxonomy.LCA; the goroutines and unbuffered channels under ITaxonSet (the model is the sequential protocol: one producer order, atomic receives; Split() is proved for every '
+               'interleaving of the Next calls but the harness drives the two handles from one goroutine - the unsynchronised *p_finished flag under truly parallel consumers is a data race outside the model). No PARTIAL theorem is left (the order dependence of TaxonomicDistribution found in the second pass was repaired in /repo by 5d9c1cf, the model follows the repaired code, the wlo / wl.order oracles are unconditional). Decided out of scope (observations, '
                'no oracle): the loaders stop silently on a csv error keeping the records read so far (a file with a csv syntax error is not the rendering of any taxonomy - rendered_csv_records shows every rendering is read to the '
                'end -, the queries on the truncated taxonomy agree with the truncated tree, model = reference on 19 damage kinds); AddNewName drops the first alternate name of a taxon and indexes names under the taxid given '
                '(no query of the statement reads alternate names); SetScientificName writes the attribute scienctific_name (sic); IsAValidTaxon(true) on a taxonomy whose root is taxid 0 stores 1 (SetTaxid), modelled as is. Explicitly not modelled (outcome unmodelled, never generated): csv fields starting with a double quote, negative taxids, non-ASCII bytes in dump files. '
                'Not covered: thresholds below 1.0 '
                '(outside the statement; map-order dependent on ties), name-based '
-               'filters (IFilterOnName), ITaxonSet.Split and '
-               'concurrent consumption of an iterator (the filters are modelled drained by one consumer), taxonomies that are not well formed (parent cycles hang, two roots make '
+               'filters (IFilterOnName), '
+               'parallel consumption of an iterator from several goroutines, taxonomies that are not well formed (parent cycles hang, two roots make '
                'TaxNode.LCA index out of range — modelled as outcomes hang / panic, the latter exercised).',
  'trusted_base': LEAN_TB + ['Go map semantics (one TaxNode object per taxid after ReindexParent, so pointer comparisons are taxid comparisons)',
                             'IEEE-754 double division of integers below 2^53 (w/total = 1.0 iff w = total), used to replace the float test rmax >= 1.0 by an integer test',
@@ -76,11 +86,11 @@ CFG = {'lean_modules': ['ObiVerif.Props.C14'],
              '(SetTaxonAtRank, SetSpecies, SetGenus, SetFamily, SetPath, SetScientificName, SetTaxonomicRank), sequence_workers.go (MakeSetTaxonAtRankWorker, MakeSetSpecies/Genus/FamilyWorker, MakeSetPathWorker), '
              'obiannotate AddScientificNameWorker / AddTaxonRankWorker, obigrep/options.go (CLIRestrictTaxonomyPredicate, CLIAvoidTaxonomyPredicate, CLIHasRankDefinedPredicate, '
              'CLITaxonomyFilterPredicate); ncbitaxdump/read.go (loadNodeTable, loadNameTable scientific names, loadMergedTable, LoadNCBITaxDump from the file bytes), taxonomy.go Taxon(string) and '
-             'IsSubCladeOfSlot on string attributes, iterator.go / filter_on_subclade_of.go / filter_on_rank.go / issuubcladeof.go IsBelongingSubclades (drained), taxonslice.go String; exercised by the '
+             'IsSubCladeOfSlot on string attributes, iterator.go / filter_on_subclade_of.go / filter_on_rank.go / issuubcladeof.go IsBelongingSubclades (drained), taxonslice.go String; iterator.go ITaxonSet protocol (Iterator of TaxonSet / TaxonSlice / Taxonomy, Next, Get, Finished, Split, TaxonSet(), TaxonSlice()), obitools/obifind iterator.go '
+             '(IFilterRankRestriction, ITaxonRestrictions) and options.go CLITaxonomicalRestrictions; exercised by the '
              'harness without a model of their own: AddLCAWorker, obiannotate.AddTaxonAtRankWorker name annotations, alternate names',
  'assumptions': ['the taxonomy is well formed: exactly one node is its own parent, every parent taxid is a node, every node reaches the root (a parent cycle '
                  'makes the Go loops spin forever: outcome hang of the model, never executed on the real code)',
-                 'weights of a merged_taxid map are >= 0 and below 2^53; keys resolving to the same node agree on weight > 0 (TaxonomicDistribution '
-                 'overwrites instead of adding, in map order); the wlo queries explore the maps that do not',
+                 'weights of a merged_taxid map are >= 0 and their sum is below 2^53 (any counts under the keys of one taxon: they are added)',
                  'dump files are ASCII, no csv field starts with a double quote, taxids are non-negative (else the loader model answers unmodelled)',
                  'threshold of the weighted LCA is exactly 1.0 (--lca-error 0); lower thresholds depend on the map iteration order on ties and are outside the statement']}
